@@ -214,6 +214,9 @@ pub fn history_monitors(p: &Program, ex: &ExecTrace, passed: bool, prop: &str) -
                 }
             }
         }
+        if e.kind == "DA" && e.val == "false" && e.task != u32::MAX && !destroyed.contains(&(e.task, 1)) {
+            f.push(Finding { key: format!("{}:tls:destroyed-before-destruction", prop), detail: format!("task {}: the destructor of key 0 found key 1 already destroyed although its destructor had not run", e.task) });
+        }
         if e.kind == "DA" && e.val == "true" {
             // destructor of key 0 reached key 1: legal iff key 1 not yet destructed by this task
             if destroyed.contains(&(e.task, 1)) {
@@ -301,6 +304,8 @@ fn count_ops(p: &Program, ex: &ExecTrace, out: &mut RunOut) {
                     }
                 }
                 Op::SemClose(_) => "sem_close".into(),
+                Op::SemStash(..) => format!("sem_{}", e.val.split(':').next().unwrap_or("")),
+                Op::SemTakeAwait(_) => format!("sem_takeover_{}", e.val.split(':').next().unwrap_or("")),
                 _ => continue,
             };
             out.count(&name, 1);
@@ -384,7 +389,46 @@ fn gen_poison(rng: &mut Rng) -> ProgCase {
     ProgCase { prog: Program { res, bodies }, sim: sim_for(rng), max_steps: None }
 }
 
+/// Directed condvar shape: several waiters in (possibly) different cohorts and a notifier issuing
+/// fewer notify_one calls than there are waiters; more waiters returning than notifications were
+/// issued is "invented wake-up", fewer (with the notifier done) is a lost one.
+fn gen_condvar_cohorts(rng: &mut Rng) -> ProgCase {
+    let nw = rng.range(2, 4);
+    let res = Resources { mutexes: 1, condvars: 1, atomics: 1, ..Default::default() };
+    let mut bodies: Vec<Vec<Op>> = vec![vec![]];
+    for w in 0..nw {
+        let mut b = vec![];
+        if rng.chance(1, 3) {
+            b.push(Op::Yield);
+        }
+        b.extend([Op::Lock(0), Op::Wait(0, 0), Op::Unlock(0)]);
+        bodies.push(b);
+        bodies[0].push(Op::Spawn(w + 1));
+    }
+    let nn = rng.range(1, nw);
+    let mut notifier = vec![];
+    for _ in 0..nn {
+        if rng.chance(1, 2) {
+            notifier.push(Op::Yield);
+        }
+        notifier.push(if rng.chance(1, 8) { Op::NotifyAll(0) } else { Op::NotifyOne(0) });
+    }
+    if rng.chance(1, 2) {
+        bodies.push(notifier);
+        let nb = bodies.len() - 1;
+        let pos = rng.below(bodies[0].len() + 1);
+        bodies[0].insert(pos, Op::Spawn(nb));
+    } else {
+        bodies[0].extend(notifier);
+    }
+    // spawn order must respect body numbering (a body is spawned by a lower-numbered one): ok, all by main
+    ProgCase { prog: Program { res, bodies }, sim: sim_for(rng), max_steps: None }
+}
+
 pub fn gen_c05(batch: &str, rng: &mut Rng) -> ProgCase {
+    if batch == "cohorts" {
+        return gen_condvar_cohorts(rng);
+    }
     let mut cfg = GenCfg::none();
     cfg.max_bodies = rng.range(2, 4);
     cfg.max_ops = rng.range(2, 5);
